@@ -16,7 +16,10 @@ import os
 
 import vlib
 
-KINDS = ["t1issuer", "t5issuer", "t2issuer", "t3issuer", "batch", "eckey", "edkey"]
+KINDS = ["t1issuer", "t5issuer", "t2issuer", "t3issuer", "batch", "eckey", "edkey", "edfirst", "ecfirst"]
+# "edfirst"/"ecfirst": the same programs as edkey/eckey, each in a process of its own where the program's concurrent
+# calls are the first use of the package (lazy package-level tables behind sync.Once are initialised by racing goroutines)
+GEN_CFG = {"edfirst": "edkey", "ecfirst": "eckey"}
 
 
 def describe(e, case):
@@ -46,7 +49,7 @@ def run(ctx):
     beh, seen = [], set()
     for k in KINDS:
         ov = {"Procs": '{"g1", "g2", "g3"}'} if (ctx.thorough and k in ("t1issuer", "t5issuer")) or k == "batch" else None
-        for b in ctx.generate("Gen_Conc", cfg="Gen_Conc_%s.cfg" % k, workers=1, overrides=ov):
+        for b in ctx.generate("Gen_Conc", cfg="Gen_Conc_%s.cfg" % GEN_CFG.get(k, k), workers=1, overrides=ov):
             prog = [b[g] for g in sorted(b)]
             sig = (k, tuple(sorted(tuple(p) for p in prog)))     # goroutines are interchangeable
             if prog and sig not in seen:
